@@ -461,6 +461,21 @@ k("K179", "C11", "datacodec/varint.go", "\tcase uint:\n\t\tval = new(big.Int).Se
 k("K180", "C17", "frame/deepcopy_generated.go", "\t\t*out = make([]byte, len(*in))\n\t\tcopy(*out, *in)\n\t}\n\treturn\n}\n\n// DeepCopy is an autogenerated deepcopy function, copying the receiver, creating a new RawFrame.", "\t\tif cap(*out) >= len(*in) {\n\t\t\t*out = (*out)[:len(*in)]\n\t\t} else {\n\t\t\t*out = make([]byte, len(*in))\n\t\t}\n\t\tcopy(*out, *in)\n\t}\n\treturn\n}\n\n// DeepCopy is an autogenerated deepcopy function, copying the receiver, creating a new RawFrame.",
   "field:(*frame.RawFrame).DeepCopyInto.Body", "existing buffer reused: the copy can stay an alias of the original")
 
+# ---- round 4 rules
+k("K181", "C05", "frame/encode.go", "primitive.WriteByte(uint8(header.Flags), dest)", "primitive.WriteByte(uint8(header.Flags.Remove(primitive.HeaderFlagWarning)), dest)",
+  "header-verbatim:EncodeHeader flags@v4", "a header flag is dropped when the header is written")
+k("K182", "C10", "client/inflight.go", "\t} else if _, found := h.inFlight[streamId]; found {\n\t\treturn nil, fmt.Errorf(\"%v: stream id already in use: %d\", h, streamId)\n\t}", "\t} else if _, found := h.inFlight[streamId]; found {\n\t\tlog.Debug().Msgf(\"%v: stream id already in use: %d\", h, streamId)\n\t}",
+  "duplicate-refused:addInFlight", "an id still in flight is accepted again")
+k("K183", "C10", "client/client.go", "\t\t\tlog.Debug().Msgf(\"%v: incoming event frame successfully delivered: %v\", c, incoming)\n\t\tdefault:\n\t\t\tlog.Error().Msgf(\"%v: events queue is full, discarding event frame: %v\", c, incoming)\n\t\t}",
+  "\t\t\tlog.Debug().Msgf(\"%v: incoming event frame successfully delivered: %v\", c, incoming)\n\t\t}",
+  "reader-never-blocks:", "reader goroutine blocks on a full event channel")
+k("K184", "C08", "compression/snappy/snappy.go", "\t\tif decompressedMessage, err := snappy.Decode(nil, compressedMessage.Bytes()); err != nil {", "\t\tif n, err := snappy.DecodedLen(compressedMessage.Bytes()); err == nil && n > 16*compressedMessage.Len() {\n\t\t\treturn fmt.Errorf(\"suspicious ratio\")\n\t\t} else if decompressedMessage, err := snappy.Decode(nil, compressedMessage.Bytes()); err != nil {",
+  "ratio-guard:", "legitimate highly compressible data refused")
+k("K185", "C03", "frame/encode.go", "\t\tframe.Header.BodyLength = int32(len(frame.Body))\n\t\tif err := c.EncodeHeader(frame.Header, dest); err != nil {\n\t\t\treturn fmt.Errorf(\"cannot encode raw header", "\t\tif err := c.EncodeHeader(frame.Header, dest); err != nil {\n\t\t\treturn fmt.Errorf(\"cannot encode raw header",
+  "bodylength-flow:(*frame.codec).EncodeRawFrame sets BodyLength", "raw frame goes out under a stale declared length")
+k("K186", "C12", "datacodec/decimal.go", "\tbinary.BigEndian.PutUint32(dest, uint32(val.Scale))", "\tscale := val.Scale\n\tif val.Unscaled == nil {\n\t\tscale = 0\n\t}\n\tbinary.BigEndian.PutUint32(dest, uint32(scale))",
+  "value-layout:decimal encode", "scale replaced by a constant on one path")
+
 
 json.dump(C, open(os.path.join(os.path.dirname(os.path.abspath(__file__)), "controls.json"), "w"), indent=1)
 print(len(C), "controls")
